@@ -18,7 +18,7 @@ func init() {
 	}
 	register(&Rule{ID: "C05.atomic", Floor: 25,
 		Text: "failure atomicity: in every exported operation of MemFS and OrefaFS except RemoveAll (documented to remove what it can), no instruction that changes the tree (entry-map update, node release, truncate, store to a node attribute) can be followed by a return that reports an error; check-and-set helpers (setMode, setModTime) change the node only when they return true",
-		Also: []string{"C01"},
+		Also: []string{"C01", "C02", "C06"},
 		Run:  c05Atomic})
 	register(&Rule{ID: "C05.nlink", Floor: 8,
 		Text: "the link counter moves with the directory entries: Link increments the counter of the node it inserts, inside that node's critical section; Remove / RemoveAll release (decrement) every node whose entry they remove, on every path and for every kind of node; Rename releases the node it displaces at the destination",
@@ -309,7 +309,7 @@ func c05Nlink(rc *RuleCtx) {
 				})
 				for _, rm := range removals {
 					for _, r := range returnsOf(f) {
-						if ei < 0 || !instrReaches(rm, r) {
+						if !instrReaches(rm, r) {
 							continue
 						}
 						okR := false
